@@ -57,10 +57,15 @@ def gen_hand(rng):
     n = rng.choice([2, 2, 3, 3, 4, 5, 6, 9])
     dec = rng.random() < 0.35
     # decimal hands are played in integer cents and rendered in dollars
-    bb = rng.choice([10, 50, 100, 200] if dec else [2, 10, 100, 2000])
+    bb = rng.choice([10, 50, 100, 200] if dec else
+                    [2, 10, 100, 2000, 2000, 200000])
+    # (bb 200000: late tournament levels, stacks of tens of millions)
     sb = bb // 2
     stacks = [rng.randint(2, 150) * bb // 2 + rng.choice([0, 0, 1, 3])
               for _ in range(n)]
+    # (exactly 10,000,000 is iPoker's documented placeholder for an unknown
+    # stack and is imported as "infinite": not a stack a log can state)
+    stacks = [x + 7 if x == 10 ** 7 else x for x in stacks]
     cfg = {
         'scale': Decimal('0.01') if dec else 1,
         'chip_type': 'int', 'kind': 'game',
